@@ -206,15 +206,16 @@ def op_model(t):
         return ser(onnxscript.rewriter.rewrite(m, rules) if rules is not None else onnxscript.rewriter.rewrite(m))
     if api == "fold":
         im = ir.serde.deserialize_model(m)
-        SHARED_FOLD(im)
-        return ser(ir.serde.serialize_model(im))
+        res = SHARED_FOLD(im)
+        # the pass result (modified flag) is part of what the call returns
+        return ser(ir.serde.serialize_model(im)), {"modified": str(bool(res.modified)).encode()}
     if api == "convert":
         tv = t["target_version"]
         im = ir.serde.deserialize_model(m)
         if tv not in SHARED_CONVERT:
             SHARED_CONVERT[tv] = onnxscript.version_converter.ConvertVersionPass(target_version=tv)
-        SHARED_CONVERT[tv](im)
-        return ser(ir.serde.serialize_model(im))
+        res = SHARED_CONVERT[tv](im)
+        return ser(ir.serde.serialize_model(im)), {"modified": str(bool(res.modified)).encode()}
     raise ValueError(api)
 
 
@@ -279,8 +280,11 @@ def run_job(job):
             out["sha_parts"] = {k: hashlib.sha256(v).hexdigest()[:16] for k, v in r.items()}
             digest = hashlib.sha256(b"\x00".join(parts)).hexdigest()
         else:
-            blob = op_model(t)
-            digest = hashlib.sha256(blob).hexdigest()
+            r = op_model(t)
+            blob, extra = r if isinstance(r, tuple) else (r, {})
+            parts = {"model": blob, **extra}
+            out["sha_parts"] = {k: hashlib.sha256(v).hexdigest()[:16] for k, v in parts.items()}
+            digest = hashlib.sha256(b"\x00".join(parts[k] for k in sorted(parts))).hexdigest()
         out["status"] = "ok"
         out["sha"] = digest
         out["blob"] = base64.b64encode(zlib.compress(blob)).decode()
